@@ -89,6 +89,9 @@ def cases_for_rule(ri, rn, ctx):
             yield [[d, (aspec[d][1] if len(aspec[d]) > 1 else "v")] for d in decl] + [[nm, v]]
 
 
+KEEP_ALIVE = []
+
+
 def run_one(ri, rn, attrs):
     """implementation view for one case"""
     impl.reset()
@@ -100,6 +103,14 @@ def run_one(ri, rn, attrs):
         n.add_attribute(k, v)
     for kn in ri.valid_kids(rn):
         c = Node(kn); n.children.append(c); c.parent = n
+    if (len(attrs) + len(rn)) % 4 == 0:
+        # the same node as the single child of a `metadata` element (or deeper below one): attribute validation looks at the node
+        md = Node("metadata")
+        if len(rn) % 2:
+            md.children.append(n); n.parent = md
+        else:
+            mid = Node("zzWrapper"); md.children.append(mid); mid.parent = md; mid.children.append(n); n.parent = mid
+        KEEP_ALIVE.append(md)
     if elem:
         f = validate.node
         args = (n,)
